@@ -24,8 +24,8 @@ Local Open Scope N_scope.
 (* reply loop of an entry *)
 Inductive ppc := PNone   (* not spawned: no socket *)
                | PRead   (* in conn.ReadFrom *)
-               | PGot    (* ReadFrom returned data, before e.Last.Set *)
-               | PSend   (* before io.SendMessage *)
+               | PGot (n : N)    (* ReadFrom returned a datagram of n bytes (n = 0: an empty datagram) with a nil error, before e.Last.Set *)
+               | PSend (n : N)   (* before io.SendMessage of that datagram *)
                | PC1 | PC2 | PC3   (* CloseWithErr: before part 1 / before logger.Close / before delete *)
                | PDone.
 
@@ -69,7 +69,8 @@ Inductive thread := TRL | TSW | TRP (e : nat).
 Inductive action :=
 | ARecv (sid : N) (c : bool) | ARecvErr
 | ALookup | AInsert | AFeed | AInitClosed | AHookErr | ADial (ok : bool) | AWrite (ok : bool) | ADrop
-| ARead (e : nat) (ok : bool) | AStamp (e : nat) | ASend (e : nat) (ok : bool)
+| ARead (e : nat) (ok : bool) (n : N)   (* ReadFrom returns (n, addr, nil) for ANY n >= 0, or an error (ok = false) *)
+| AStamp (e : nat) | ASend (e : nat) (ok : bool)
 | AClose1 (t : thread) (e : nat) | ACloseLog (t : thread) | ACloseDel (t : thread)
 | ASnapAll | ATick | AStop | AAdvance (d : N).
 
@@ -78,8 +79,8 @@ Inductive event :=
 | EHookErr (sid : N)
 | EDial (sid : N) (sock : option N)
 | EWrite (sock : N) (sid : N) (ok : bool)    (* sid: session id of the datagram being written *)
-| ERead (sock : N) (ok : bool)
-| ESend (sock : N) (sid : N) (ok : bool)     (* sock: the socket the payload was read from; sid: its stamp *)
+| ERead (sock : N) (ok : bool) (n : N)          (* n: length of the datagram read (0 is a datagram) *)
+| ESend (sock : N) (sid : N) (ok : bool) (n : N)   (* sock: the socket the payload was read from; sid: its stamp; n: payload length *)
 | EClose (sock : N)
 | ELogClose (sid : N)
 | EAdvance (d : N).
@@ -288,14 +289,14 @@ Definition step (s : state) (a : action) : option (state * list event) :=
   | ADrop =>          (* udp.go:116-118: the policy rejects the destination *)
       match rl s with RWrite e sid => Some (set_rl s RWait, []) | _ => None end
   (* ---------------- reply loops ---------------- *)
-  | ARead e ok =>     (* udp.go:185-189 *)
+  | ARead e ok n =>   (* udp.go:185-189: only err != nil leaves the loop; udpN is not looked at (an empty datagram is relayed) *)
       match get s e with
       | Some en =>
           match e_pc en, e_sock en with
           | PRead, Some k =>
               if ok then
-                if Nat.eqb (e_closes en) 0 then Some (set_entry s e (set_pc en PGot), [ERead k true]) else None
-              else Some (set_entry s e (set_pc en PC1), [ERead k false])
+                if Nat.eqb (e_closes en) 0 then Some (set_entry s e (set_pc en (PGot n)), [ERead k true n]) else None
+              else Some (set_entry s e (set_pc en PC1), [ERead k false n])
           | _, _ => None
           end
       | None => None
@@ -304,7 +305,7 @@ Definition step (s : state) (a : action) : option (state * list event) :=
       match get s e with
       | Some en =>
           match e_pc en with
-          | PGot => Some (set_entry s e (set_pc (set_last en (now s)) PSend), [])
+          | PGot n => Some (set_entry s e (set_pc (set_last en (now s)) (PSend n)), [])
           | _ => None
           end
       | None => None
@@ -313,7 +314,7 @@ Definition step (s : state) (a : action) : option (state * list event) :=
       match get s e with
       | Some en =>
           match e_pc en, e_sock en with
-          | PSend, Some k => Some (set_entry s e (set_pc en (if ok then PRead else PC1)), [ESend k (e_sid en) ok])
+          | PSend n, Some k => Some (set_entry s e (set_pc en (if ok then PRead else PC1)), [ESend k (e_sid en) ok n])
           | _, _ => None
           end
       | None => None
